@@ -1,6 +1,7 @@
 package main
 
 import (
+	"encoding/pem"
 	crand "crypto/rand"
 	"crypto/ed25519"
 	"bytes"
@@ -38,6 +39,7 @@ type osslVariant struct {
 	Attached bool
 	NoAttr   bool
 	NoCerts  bool
+	CoSignEC bool // a second signer with an ECDSA key signs in the same call
 }
 
 var osslVariants = []osslVariant{
@@ -56,6 +58,8 @@ var osslVariants = []osslVariant{
 	{Name: "cms-econtent-type-nodetach", Tool: "cms", Args: []string{"-nodetach", "-econtent_type", "1.2.840.113549.1.9.16.1.4"}, Attached: true},
 	{Name: "cms-econtent-type-nodetach-nosmimecap", Tool: "cms", Args: []string{"-nodetach", "-nosmimecap", "-econtent_type", "1.2.840.113549.1.9.16.1.2"}, Attached: true},
 	{Name: "cms-econtent-type-detached", Tool: "cms", Args: []string{"-econtent_type", "1.2.840.113549.1.9.16.1.4"}},
+	{Name: "smime-cosigned-by-ecdsa", Tool: "smime", CoSignEC: true},
+	{Name: "cms-cosigned-by-ecdsa-nodetach", Tool: "cms", Args: []string{"-nodetach", "-nosmimecap"}, Attached: true, CoSignEC: true},
 	{Name: "smime-noattr", Tool: "smime", Args: []string{"-noattr"}, NoAttr: true},
 	{Name: "cms-noattr-nodetach", Tool: "cms", Args: []string{"-noattr", "-nodetach"}, NoAttr: true, Attached: true},
 }
@@ -72,6 +76,21 @@ func opensslSign(v osslVariant, content []byte, k *keys.Key, cert *x509.Certific
 	os.WriteFile(filepath.Join(dir, "in"), content, 0o644)
 	args := []string{v.Tool, "-sign", "-binary", "-outform", "DER", "-md", "sha256", "-signer", "c.pem", "-inkey", "k.pem", "-in", "in", "-out", "sig.der"}
 	args = append(args, v.Args...)
+	if v.CoSignEC {
+		// the co-signer: an ECDSA key with a certificate of its own; it signs after the RSA signer
+		ek := keys.ECCA()
+		ec, err := keys.MintVia(&ek.PublicKey, ek, keys.IssuerName(keys.IssShort, "ec-cosigner"), big.NewInt(31), "ec co-signer")
+		if err != nil {
+			return nil, err
+		}
+		ekDER, err := x509.MarshalPKCS8PrivateKey(ek)
+		if err != nil {
+			return nil, err
+		}
+		os.WriteFile(filepath.Join(dir, "ek.pem"), pem.EncodeToMemory(&pem.Block{Type: "PRIVATE KEY", Bytes: ekDER}), 0o600)
+		os.WriteFile(filepath.Join(dir, "ec.pem"), keys.CertPEM(ec), 0o644)
+		args = append(args, "-signer", "ec.pem", "-inkey", "ek.pem")
+	}
 	cmd := exec.Command("openssl", args...)
 	cmd.Dir = dir
 	out, err := cmd.CombinedOutput()
@@ -317,6 +336,11 @@ func opensslSeeds(r *mon.Run, n int, withNoAttr bool) []p7seed {
 		sizes := []int{0, 1, 55, 56, 64, 65, 1024, 20000, 65536}
 		content := make([]byte, sizes[(i/len(osslVariants))%len(sizes)])
 		rng.Read(content)
+		if i%7 == 3 {
+			// text content that itself holds PEM blocks (a certificate bundle, `openssl x509 -text` output)
+			content = append([]byte("Certificate bundle\n# first\n"), keys.CertPEM(cs.Other)...)
+			content = append(append(content, []byte("# second\n")...), keys.CertPEM(cs.Twin)...)
+		}
 		b, err := opensslSign(v, content, cs.Key, cs.Cert)
 		if err != nil {
 			r.Inconclusive("openssl seed %s: %v", v.Name, err)
